@@ -499,6 +499,7 @@ fn translate_unit(repo: &Path, u: &Unit, reg: &mut Registry) -> Res<String> {
                 let mut units = vec![];
                 let mut datas = vec![];
                 let mut lines = vec![];
+                let mut named: Vec<(String, Vec<String>)> = vec![];
                 for v in &e.variants {
                     if tr::cfg_disabled(&v.attrs) {
                         continue;
@@ -514,7 +515,14 @@ fn translate_unit(repo: &Path, u: &Unit, reg: &mut Registry) -> Res<String> {
                             lines.push(format!("  | {} {}", lean_ident(&vn), tys.iter().enumerate().map(|(k, t)| format!("(a{} : {})", k, t.lean())).collect::<Vec<_>>().join(" ")));
                             datas.push((vn, tys));
                         }
-                        Fields::Named(_) => return Err(format!("enum {} variant {} has named fields", name, vn)),
+                        Fields::Named(fs) => {
+                            // builder N: struct-like variant: constructor arguments in declaration order
+                            let tys = fs.named.iter().map(|f| tr.ty(&f.ty)).collect::<Res<Vec<_>>>().map_err(|e| format!("enum {} variant {}: {}", name, vn, e))?;
+                            let names: Vec<String> = fs.named.iter().map(|f| f.ident.as_ref().unwrap().to_string()).collect();
+                            lines.push(format!("  | {} {}", lean_ident(&vn), names.iter().zip(tys.iter()).map(|(n, t)| format!("({} : {})", lean_ident(n), t.lean())).collect::<Vec<_>>().join(" ")));
+                            named.push((format!("{}::{}", name, vn), names));
+                            datas.push((vn, tys));
+                        }
                     }
                 }
                 writeln!(out, "inductive {} where", name).unwrap();
@@ -524,6 +532,9 @@ fn translate_unit(repo: &Path, u: &Unit, reg: &mut Registry) -> Res<String> {
                 writeln!(out, "  deriving DecidableEq, Repr\n").unwrap();
                 reg.enums.insert(name.to_string(), units);
                 reg.enum_data.insert(name.to_string(), datas);
+                for (k, v) in named {
+                    reg.enum_named.insert(k, v);
+                }
             }
             Sel::AbstractStmt(needle, lean, reads, writes) => {
                 reg.abstract_stmts.push((needle.to_string(), lean.to_string(), reads.iter().map(|s| s.to_string()).collect(), writes.iter().map(|s| s.to_string()).collect()));
